@@ -385,6 +385,31 @@ theorem parts_sorted (v : Nat) (parts : List (Cur κ)) (hp : Parts v parts) :
   obtain ⟨rs, t, rfl⟩ := isPart_iff.1 hpv
   exact elems_sorted v rs t hpw
 
+/-- any co-iteration of `p :: ps` that is sorted and whose rows are all the operands' payloads at the
+    coordinates every operand presents -/
+theorem rowsOK_of_allLookup (v : Nat) (p : Cur κ) (ps : List (Cur κ)) (hp : Parts v (p :: ps))
+    (rows : Fib κ (List (Cur κ))) (h1 : Sorted rows)
+    (h2 : ∀ c, lookup rows c = allLookup (p.elems :: ps.map Cur.elems) c) : RowsOK (p :: ps) rows := by
+  refine ⟨h1, ?_, ?_, ?_⟩
+  · intro r hr
+    have hl := lookup_of_sorted_mem h1 hr
+    rw [h2 r.1] at hl
+    exact allLookup_elems v (p :: ps) hp r.1 r.2 (by simpa using hl)
+  · intro c hc
+    rw [hasKey_iff_lookup, h2 c]
+    apply allLookup_isSome
+    intro g hg
+    have hg' : g ∈ (p :: ps).map Cur.elems := by simpa using hg
+    obtain ⟨q, hq, rfl⟩ := List.mem_map.1 hg'
+    exact hc q hq
+  · intro r hr q hq
+    have : q = p := by simpa using hq.symm
+    subst this
+    have hl := lookup_of_sorted_mem h1 hr
+    rw [h2 r.1] at hl
+    rw [hasKey_iff_lookup]
+    exact allLookup_head _ _ _ (by rw [hl]; rfl)
+
 /-- two-finger (`&`, nested or through `Fiber.intersection`) -/
 theorem rowsOK_tf (v : Nat) (parts : List (Cur κ)) (hp : Parts v parts) (hne : parts ≠ []) :
     RowsOK parts (coiter .tf parts) := by
@@ -394,27 +419,43 @@ theorem rowsOK_tf (v : Nat) (parts : List (Cur κ)) (hp : Parts v parts) (hne : 
     obtain ⟨h1, h2⟩ := interAll_spec p.elems (ps.map Cur.elems) (by
       have := parts_sorted v (p :: ps) hp
       simpa using this)
-    have hco : coiter .tf (p :: ps) = interAll (p.elems :: ps.map Cur.elems) := rfl
-    rw [hco]
-    refine ⟨h1, ?_, ?_, ?_⟩
-    · intro r hr
-      have hl := lookup_of_sorted_mem h1 hr
-      rw [h2 r.1] at hl
-      exact allLookup_elems v (p :: ps) hp r.1 r.2 (by simpa using hl)
-    · intro c hc
-      rw [hasKey_iff_lookup, h2 c]
-      apply allLookup_isSome
-      intro g hg
-      have hg' : g ∈ (p :: ps).map Cur.elems := by simpa using hg
-      obtain ⟨q, hq, rfl⟩ := List.mem_map.1 hg'
-      exact hc q hq
-    · intro r hr q hq
-      have : q = p := by simpa using hq.symm
-      subst this
-      have hl := lookup_of_sorted_mem h1 hr
-      rw [h2 r.1] at hl
-      rw [hasKey_iff_lookup]
-      exact allLookup_head _ _ _ (by rw [hl]; rfl)
+    exact rowsOK_of_allLookup v p ps hp _ h1 h2
+
+theorem interR_spec {π : Type} (f : Fib κ π) (fs : List (Fib κ π)) (hs : ∀ g ∈ f :: fs, Sorted g) :
+    Sorted (interR (f :: fs)) ∧ ∀ c, lookup (interR (f :: fs)) c = allLookup (f :: fs) c := by
+  have hf : Sorted f := hs f (List.mem_cons_self ..)
+  cases fs with
+  | nil =>
+    refine ⟨sorted_map_key f (fun e => [e.2]) hf, fun c => ?_⟩
+    show lookup (f.map (fun e => (e.1, [e.2]))) c = _
+    rw [lookup_map_pay f (fun _ (p : π) => [p]) c]
+    simp only [allLookup]
+    cases lookup f c <;> rfl
+  | cons g gs =>
+    obtain ⟨h1, h2⟩ := interAll_spec g gs (fun x hx => hs x (List.mem_cons_of_mem _ hx))
+    have hm : interR (f :: g :: gs) =
+        (andSpec f (interAll (g :: gs))).map (fun r => (r.1, r.2.1 :: r.2.2)) := by
+      show (andMerge f (interAll (g :: gs))).map _ = _
+      rw [and_spec f _ hf h1]
+    rw [hm]
+    refine ⟨sorted_map_key _ (fun r => r.2.1 :: r.2.2) (sorted_andSpec f _ hf), fun c => ?_⟩
+    rw [lookup_map_pay (andSpec f (interAll (g :: gs))) (fun _ (p : π × List π) => p.1 :: p.2) c,
+      lookup_andSpec f _ hf c, h2 c]
+    show _ = (lookup f c).bind (fun p => (allLookup (g :: gs) c).map (fun ps => p :: ps))
+    cases lookup f c with
+    | none => rfl
+    | some p => cases allLookup (g :: gs) c <;> rfl
+
+/-- two-finger with a lazy right operand: `a & (b & c)`, hoisted or not -/
+theorem rowsOK_tfr (v : Nat) (parts : List (Cur κ)) (hp : Parts v parts) (hne : parts ≠ []) :
+    RowsOK parts (coiter .tfr parts) := by
+  cases parts with
+  | nil => exact absurd rfl hne
+  | cons p ps =>
+    obtain ⟨h1, h2⟩ := interR_spec p.elems (ps.map Cur.elems) (by
+      have := parts_sorted v (p :: ps) hp
+      simpa using this)
+    exact rowsOK_of_allLookup v p ps hp _ h1 h2
 
 /-- leader-follower, unfiltered -/
 theorem rowsOK_lf (v : Nat) (parts : List (Cur κ)) (hp : Parts v parts) (hne : parts ≠ []) :
@@ -536,10 +577,29 @@ theorem lff_eq_tf (v : Nat) (parts : List (Cur κ)) (hp : Parts v parts) (hne : 
   intro c
   exact ⟨fun h => h2.complete c (lff_sound v parts hp hne c h), fun h => h1.complete c (tf_sound v parts hp hne c h)⟩
 
+/-- the nesting of the two-finger intersections is irrelevant: same rows, same payload order -/
+theorem tfr_eq_tf (v : Nat) (parts : List (Cur κ)) (hp : Parts v parts) (hne : parts ≠ []) :
+    coiter .tfr parts = coiter .tf parts := by
+  have h1 := rowsOK_tfr v parts hp hne
+  have h2 := rowsOK_tf v parts hp hne
+  cases parts with
+  | nil => exact absurd rfl hne
+  | cons p ps =>
+    have hs := parts_sorted v (p :: ps) hp
+    obtain ⟨_, l1⟩ := interR_spec p.elems (ps.map Cur.elems) (by simpa using hs)
+    obtain ⟨_, l2⟩ := interAll_spec p.elems (ps.map Cur.elems) (by simpa using hs)
+    apply sorted_ext_of_fn (F := fun c => (p :: ps).map (Cur.at c)) _ _ h1.sorted h2.sorted h1.sub h2.sub
+    intro c
+    rw [hasKey_iff_lookup, hasKey_iff_lookup]
+    show (lookup (interR (p.elems :: ps.map Cur.elems)) c).isSome = true ↔
+      (lookup (interAll (p.elems :: ps.map Cur.elems)) c).isSome = true
+    rw [l1 c, l2 c]
+
 theorem rowsOK (style : Style) (v : Nat) (parts : List (Cur κ)) (hp : Parts v parts) (hne : parts ≠ []) :
     RowsOK parts (coiter style parts) := by
   cases style with
   | tf => exact rowsOK_tf v parts hp hne
+  | tfr => exact rowsOK_tfr v parts hp hne
   | lf => exact rowsOK_lf v parts hp hne
   | lff => exact rowsOK_lff v parts hp hne
 
